@@ -392,15 +392,25 @@ scalar, in output order / the scalars only / the keys of an object); `dleaves` /
 scalar through the narrowing table `narrowScalar`, in document order).  Neither side mentions
 `jsonOf`, the array windowing or the grouping algorithm (Spec/JsonLeaves.lean).
 
-The three recorded findings are excluded explicitly:
-* `header-array-view-duplicates-body`: `plainNode` — no header token (nor operator /
-  `MixedContainer` / parameter token) among the VALUES of an array or of a mixed container's
-  trailing part; headers as field values are inside the scope;
-* `group-keyed-by-raw-bytes`: `KeysAgree` — within the object, equal raw key bytes ⇔ equal JSON
-  key (only needed for the Group clause of `C16_keys_in_order`);
-* `plus-sign-narrowed-to-zero`: the document's scalar leaves are read back through the narrowing
-  table (`narrowScalar`, characterised by `C16_narrowing`), where `+` reads as 0 — the leaf
-  equation holds with that reading; that `+` SHOULD not read as a number is the finding. -/
+Value lists (arrays, the trailing part of mixed containers) are read on the document side by the
+RUN RULE (`runG`): a `MixedContainer` marker contributes nothing; a scalar followed by an operator
+and a value is a KEY there — it contributes a STRING leaf (its decoded bytes, not narrowed), the
+operator its name (`=` nothing), the value its own leaves; anything else its own leaves.  So arrays
+that turn into key-value lists (`levels={ 10 0=2 1=2 }`) and mixed containers are INSIDE the scope.
+
+Of the three recorded findings:
+* `header-array-view-duplicates-body` REMAINS an exclusion: `runNode` allows no header token among
+  the VALUES of an array or of a mixed container's trailing part (headers as field values are
+  inside the scope).  `runNode` also excludes shapes no parsed tape has shown: a parameter token
+  or a lone operator token among the values (each is written as `null`), a container in key
+  position of a run (written as `__invalid_key`, its content dropped);
+* `group-keyed-by-raw-bytes` remains an exclusion of the Group clause of `C16_keys_in_order` only
+  (`KeysAgree`: within the object, equal raw key bytes ⇔ equal JSON key); the leaf equations do
+  not need it;
+* `plus-sign-narrowed-to-zero` is not an exclusion of these statements: the document's scalar
+  leaves are read back through the narrowing table (`narrowScalar`, characterised by
+  `C16_narrowing`), where `+` reads as 0 on both sides; that `+` SHOULD not read as a number is
+  the finding. -/
 
 /-- **C16_scalars_preserved.**  For every well-formed tape, every value of the document (the
 whole-document object, and any value a reader can stand on — hence all three entry points), every
@@ -413,7 +423,7 @@ option set and both encodings: the conversion succeeds and
 * Group: the scalar values of the JSON are a permutation of the scalar values of the document
   (nothing lost, nothing invented; keys: `C16_keys_in_order`). -/
 theorem C16_scalars_preserved (o : Opts) (enc : Enc) (t : Tape) (d : Doc) (h : docAt t d = true)
-    (n : Node) (i : Nat) (hp : (n, i) ∈ d.values) (hpl : plainNode n = true) :
+    (n : Node) (i : Nat) (hp : (n, i) ∈ d.values) (hpl : runNode n = true) :
     ∃ v, serValue o enc t (fuelOf t + 1) i = .ok v ∧
       (o.dup = .preserve → jleaves v = dleaves true o enc n) ∧
       (o.dup = .kvp → ft (jleaves v) = ft (dleaves false o enc n)) ∧
@@ -424,7 +434,7 @@ theorem C16_scalars_preserved (o : Opts) (enc : Enc) (t : Tape) (d : Doc) (h : d
 
 /-- the same for the whole document (`tape.reader().json()`), read as the object of its fields -/
 theorem C16_scalars_preserved_doc (o : Opts) (enc : Enc) (t : Tape) (d : Doc) (h : docAt t d = true)
-    (hpl : plainNode (.obj false d.mixed d.fields d.rest) = true) :
+    (hpl : runNode (.obj false d.mixed d.fields d.rest) = true) :
     ∃ v, toJson o enc .obj t = .ok (some v) ∧
       (o.dup = .preserve → jleaves v = dleaves true o enc (.obj false d.mixed d.fields d.rest)) ∧
       (o.dup = .kvp → ft (jleaves v) = ft (dleaves false o enc (.obj false d.mixed d.fields d.rest))) ∧
@@ -433,7 +443,57 @@ theorem C16_scalars_preserved_doc (o : Opts) (enc : Enc) (t : Tape) (d : Doc) (h
     fun hd => leaves_preserve o enc hd _ hpl, fun hd => leaves_kvp o enc hd _ hpl,
     fun hd => vals_group o enc hd _ hpl⟩
 
-/-- **C16_keys_in_order.**  For ANY object of a well-formed document (no `plainNode` restriction:
+/-- INSTANCE.  `richDoc` = `name = "Jåhk" core = a core = b color = rgb { 1 2 }
+levels = { 10 0 = 2 x > y } nested = { k = { yes } k = v }` (non-ASCII string, duplicate keys at
+two levels, a header as a field value, an array that turns into a key-value list, nested objects
+and arrays) satisfies every hypothesis; the theorem applied to its token list gives the leaves of
+the Preserve output explicitly: note `"0"` and `"x"` (keys of runs: strings) next to `10`, `2`
+(narrowed), the operator name, and every duplicate key. -/
+example : ∃ v, toJson ⟨false, .preserve, .all⟩ .utf8 .obj (tapeOf richDoc) = .ok (some v) ∧
+    jleaves v =
+      [.str [110, 97, 109, 101], .str [74, 195, 165, 104, 107],
+       .str [99, 111, 114, 101], .str [97], .str [99, 111, 114, 101], .str [98],
+       .str [99, 111, 108, 111, 114], .str [114, 103, 98], .int 1, .int 2,
+       .str [108, 101, 118, 101, 108, 115], .int 10, .str [48], .int 2, .str [120], .str Op.gt.name, .str [121],
+       .str [110, 101, 115, 116, 101, 100], .str [107], .bool true, .str [107], .str [118]] := by
+  obtain ⟨v, hv, hpre, _, _⟩ := C16_scalars_preserved_doc ⟨false, .preserve, .all⟩ .utf8 (tapeOf richDoc) richDoc
+    (docAt_tapeOf richDoc (by decide +kernel)) (by decide +kernel)
+  exact ⟨v, hv, (hpre rfl).trans (by rfl)⟩
+
+/-- the same document in Group mode: the values are a permutation of the document's values -/
+example : ∃ v, toJson ⟨true, .group, .unquoted⟩ .w1252 .obj (tapeOf richDoc) = .ok (some v) ∧
+    (jvals v).Perm (dvals ⟨true, .group, .unquoted⟩ .w1252 richNode) := by
+  obtain ⟨v, hv, _, _, hgrp⟩ := C16_scalars_preserved_doc ⟨true, .group, .unquoted⟩ .w1252 (tapeOf richDoc) richDoc
+    (docAt_tapeOf richDoc (by decide +kernel)) (by decide +kernel)
+  exact ⟨v, hv, hgrp rfl⟩
+
+/-- NON-INSTANCES: the statement is not satisfied by an unrelated JSON value — one that drops a
+value, one that swaps two values, one that narrows the key of a run. -/
+example : jleaves (.obj [([97], .int 1)]) ≠
+    dleaves true ⟨false, .preserve, .all⟩ .utf8
+      (.obj false false [.mk (.unquoted [97]) none (.scalar false [49]), .mk (.unquoted [98]) none (.scalar false [50])] []) := by
+  intro h; exact absurd (congrArg List.length h) (by decide +kernel)
+example : jleaves (.obj [([97], .int 2), ([98], .int 1)]) ≠
+    dleaves true ⟨false, .preserve, .all⟩ .utf8
+      (.obj false false [.mk (.unquoted [97]) none (.scalar false [49]), .mk (.unquoted [98]) none (.scalar false [50])] []) := by
+  intro h
+  have h2 : dleaves true ⟨false, .preserve, .all⟩ .utf8
+      (.obj false false [.mk (.unquoted [97]) none (.scalar false [49]), .mk (.unquoted [98]) none (.scalar false [50])] []) =
+      [.str [97], .int 1, .str [98], .int 2] := by rfl
+  rw [h2] at h
+  simp [jleaves, jleavesO] at h
+example : dleaves true ⟨false, .preserve, .all⟩ .utf8
+      (.arr false [.val (.scalar false [48]), .opTok .eq, .val (.scalar false [50])]) = [.str [48], .int 2] := by rfl
+example : jleaves (.arr [.int 0, .int 2]) ≠
+    dleaves true ⟨false, .preserve, .all⟩ .utf8
+      (.arr false [.val (.scalar false [48]), .opTok .eq, .val (.scalar false [50])]) := by
+  intro h
+  have h2 : dleaves true ⟨false, .preserve, .all⟩ .utf8
+      (.arr false [.val (.scalar false [48]), .opTok .eq, .val (.scalar false [50])]) = [.str [48], .int 2] := by rfl
+  rw [h2] at h
+  simp [jleaves, jleavesL] at h
+
+/-- **C16_keys_in_order.**  For ANY object of a well-formed document (no `runNode` restriction:
 operators, headers, mixed containers, parameter blocks included), the keys of the JSON object its
 reader converts to are: Preserve — the fields' keys in document order, duplicates kept; Group —
 each key once, in order of first occurrence (outside the recorded finding: `KeysAgree`); in both,
@@ -465,7 +525,7 @@ example :
       [.mk (.unquoted [97]) none (.arr false [.val (.scalar false [49]), .val (.scalar false [121, 101, 115])]),
        .mk (.unquoted [97]) (some .gt) (.scalar false [50]),
        .mk (.unquoted [120]) none (.header [114, 103, 98] (.arr false [.val (.scalar false [51])]))] []
-    plainNode n = true ∧
+    runNode n = true ∧
     dleaves true ⟨false, .preserve, .all⟩ .utf8 n =
       [.str [97], .int 1, .bool true, .str [97], .str Op.gt.name, .int 2, .str [120], .str [114, 103, 98], .int 3] ∧
     jleaves (jsonOf ⟨false, .preserve, .all⟩ .utf8 n) = dleaves true ⟨false, .preserve, .all⟩ .utf8 n ∧
